@@ -42,6 +42,7 @@ import argparse
 from dataclasses import dataclass, field
 from typing import List, Optional
 from simple_parsing import subgroups
+from simple_parsing import field as sp_field
 
 @dataclass
 class In:
@@ -69,6 +70,11 @@ class H:
     h1: int = 1
     hidden: int = field(default=7, init=False)
     nocmd: int = field(default=8, metadata={"cmd": False})
+
+@dataclass
+class P:
+    out_dir: str = sp_field(default="results", positional=True)
+    n_it: int = 3
 
 @dataclass
 class MA:
@@ -104,6 +110,14 @@ FORESTS = {
     "subgroup": dict(adds=[["C", "c", None]], cr="AUTO",
                      good=[["--model", "mb"], ["--model", "ma"], ["--wa", "3"], ["--k", "5"], ["--model=mb", "--wb", "zz"]],
                      bad=[["--model", "zz"], ["--wb", "q"], ["--model"], ["--k", "k"]]),
+    # a POSITIONAL dataclass field, destination and names with underscores, under each dash variant (seeded change C09-07: the
+    # positional's name - which argparse keeps verbatim as dest - spelled with dashes)
+    "positional": dict(adds=[["P", "run_cfg", None]], cr="AUTO", good=[["here"], ["--n_it", "4"], ["--n_it=5"], []],
+                       bad=[["--n_it", "x"], ["--out_dir", "d"]]),
+    "positional_dash": dict(adds=[["P", "run_cfg", None]], cr="AUTO", dash="DASH", good=[["here"], ["--n-it", "4"], ["--n-it=5"], []],
+                            bad=[["--n-it", "x"], ["--n_it", "4"], ["--out-dir", "d"]]),
+    "positional_both": dict(adds=[["P", "run_cfg", None]], cr="AUTO", dash="UNDERSCORE_AND_DASH",
+                            good=[["here"], ["--n-it", "4"], ["--n_it=5"], []], bad=[["--n-it", "x"], ["--out-dir", "d"]]),
     "suppress": dict(adds=[["A", "a", "SUPPRESS"]], cr="AUTO", good=A_GOOD, bad=A_BAD),
     "suppress_nested": dict(adds=[["B", "b", "SUPPRESS"]], cr="AUTO", good=[["--lr", "0.25"], ["--z", "7"]], bad=[["--lr", "x"]]),
     # the plain program declares dest `a` itself (decl injected by the generator) / a set_defaults entry for `a`
@@ -111,7 +125,7 @@ FORESTS = {
     "collide_defaults": dict(adds=[["A", "a", None]], cr="AUTO", good=A_GOOD, bad=A_BAD),
 }
 FOREST_WEIGHTS = [("none", 8), ("single", 24), ("nested", 14), ("two_auto", 9), ("two_merge", 6), ("required", 10), ("hidden", 8),
-                  ("subgroup", 10), ("suppress", 4), ("suppress_nested", 2), ("collide_plain", 2), ("collide_defaults", 3)]
+                  ("subgroup", 10), ("suppress", 4), ("suppress_nested", 2), ("positional", 2), ("positional_dash", 4), ("positional_both", 2), ("collide_plain", 2), ("collide_defaults", 3)]
 
 # --------------------------------------------------------------------------------------------------
 # the plain program alphabet: (flags, kwargs, good token groups, bad token groups)
@@ -453,6 +467,8 @@ def _build_sp(case, parents, grec):
     kw = dict(case["parser_kw"])
     if parents:
         kw["parents"] = parents
+    if f.get("dash"):
+        kw["add_option_string_dash_variants"] = simple_parsing.DashVariant[f["dash"]]
     p = simple_parsing.ArgumentParser(conflict_resolution=simple_parsing.ConflictResolution[f["cr"]], **kw)
 
     def on_dc(parser):
